@@ -309,11 +309,28 @@ fn suite_term_again(g: &Gram, out: &mut Out, seed: u64, table: &Value) {
     for (k, name) in pinned(table).iter().enumerate() {
         let kind = table[*name]["kind"].as_str().unwrap_or("?").to_string();
         if kind != "term" && kind != "insert_term" { continue; }
-        for scenario in 0..2 {
+        for scenario in 0..3 {
             let mut s = new_session(g, out, "new", seed.wrapping_add(k as u64));
             s.a.full = true;
             logged_call(&mut s, out, "begin_function", true);
             logged_call(&mut s, out, "begin_block", true);
+            if scenario == 2 {
+                // a block that already ends in this terminator is selected again and ordinary instructions are inserted
+                // in front of the terminator: they do not end the block (only terminator opcodes do)
+                logged_call(&mut s, out, "nop", true);
+                s.a.ip = json!(["End"]);
+                logged_call(&mut s, out, name, true);
+                s.a.index = Some(0); logged_call(&mut s, out, "select_block", true); s.a.index = None;
+                for ip in [json!(["Begin"]), json!(["FromBegin", 1]), json!(["FromEnd", 1])] {
+                    s.a.ip = ip;
+                    logged_call(&mut s, out, if k % 2 == 0 { "insert_nop" } else { "insert_i_add" }, true);
+                }
+                s.a.ip = json!(["End"]);
+                s.a.index = None; logged_call(&mut s, out, "select_block", true);
+                if s.b.selected_function().is_some() { logged_call(&mut s, out, "end_function", true); }
+                finish_event(s, out, None);
+                continue;
+            }
             if scenario == 0 {
                 logged_call(&mut s, out, "nop", true);
                 for round in 0..2 {
